@@ -101,6 +101,7 @@ _STATIC_NOTE = ("trusted: std::lower_bound over the generated array as oracle; g
                 "n <= 2*10^5; configurations = 14 (Epsilon,EpsilonRecursive,Floating) x 10 key types compiled matrix")
 _SEG_NOTE = ("trusted: 128-bit integer arithmetic of the oracle; ranks < 2^40; sessions with a segment longer than 3000 points or beyond the "
              "6*10^7 pair-operation budget are counted as unchecked_large, not judged; relies on the PGM_INDEX_VERIF SegSession hook and Access friend")
+_VAR_NOTE = ("trusted: std::lower_bound over the generated array; unsigned keys on the full width of the type, n <= 2*10^5, 1..20 threads")
 DESCR = {
     "C03": {"level": "generated-input search: every constraint point the builder committed to (captured by the hook) is located in exactly one emitted segment "
                      "and its residual against the reported line is checked exactly (integers) or in long double with a stated tolerance (floats)",
@@ -118,6 +119,26 @@ DESCR = {
                      "against std::lower_bound restricted to the returned range",
             "design_ref": "DESIGN.md section 6 C02", "note": _STATIC_NOTE,
             "technique": "property-based testing (rapidcheck choice tapes) vs std::lower_bound oracle"},
+    "C08": {"level": "generated-input search over unsigned key arrays x 12 CompressedPGMIndex configurations (EpsilonRecursive 0, small, T, T+1, 256): every derived "
+                     "query judged against std::lower_bound (range inside [0,n], width, lower bound inside, present key strictly inside)",
+            "design_ref": "DESIGN.md section 6 C08-C10", "note": _VAR_NOTE + "; arrays whose keys exceed max-16 are moved down (KF-2, counted)",
+            "technique": "property-based testing (rapidcheck choice tapes) vs std::lower_bound oracle"},
+    "C09": {"level": "generated-input search over unsigned key arrays x 8..12 BucketingPGMIndex configurations (power-of-two and other table sizes, dynamic and fixed "
+                     "cell widths); O-range, empty ranges outside [first,last], and the routed segment equals the globally rightmost segment <= key",
+            "design_ref": "DESIGN.md section 6 C08-C10", "note": _VAR_NOTE + "; a TopLevelBitSize too narrow for the segment count throws invalid_argument by design: counted discard",
+            "technique": "property-based testing vs std::lower_bound oracle + recomputed responsible segment through a test subclass"},
+    "C10": {"level": "generated-input search over 16..64-bit key arrays x 6 EliasFanoPGMIndex configurations with varying segment-key density (low-bit width histogram "
+                     "in the evidence); O-range on every derived query incl. below the first key and beyond the last segment key",
+            "design_ref": "DESIGN.md section 6 C08-C10", "note": _VAR_NOTE + "; 64-bit arrays with first key 0 and last key max-1 have their first key moved to 1 (KF-3, counted)",
+            "technique": "property-based testing (rapidcheck choice tapes) vs std::lower_bound oracle"},
+    "C11": {"level": "generated-input search over duplicate-heavy signed/unsigned arrays stored in a MappedPGMIndex (range-built and raw-file-built): lower_bound, "
+                     "upper_bound, count, contains, begin/end/size compared with the std algorithms for every derived query",
+            "design_ref": "DESIGN.md section 6 C11", "note": "trusted: std algorithms on the in-memory copy; files live in /verif/work/<check>/sNN; n <= 60000; the harness closes the file descriptors the library leaks",
+            "technique": "property-based testing vs std::lower_bound/upper_bound/count/binary_search"},
+    "C12": {"level": "generated-input search over data x generated scripts of {create from range, create from raw file, reopen A, reopen B, reopen again}: byte equality "
+                     "of the two written files, file unchanged by every reopen, every instance answers all queries like the std algorithms",
+            "design_ref": "DESIGN.md section 6 C12", "note": "trusted: byte comparison of the files read back with ifstream; std algorithms; n <= 60000",
+            "technique": "property-based testing over operation scripts; round-trip / differential oracle"},
     "C07": {"level": "generated-input search with the routing hook: per level the chosen segment must be the responsible one, within EpsRec+1 of the prediction, "
                      "found inside the 2*EpsRec+3 window; level sizes obey floor(m/(2*EpsRec+1))+c",
             "design_ref": "DESIGN.md section 6 C07", "note": _STATIC_NOTE + "; relies on the PGM_INDEX_VERIF route_event hook",
